@@ -14,6 +14,7 @@ import (
 	"github.com/insomniacslk/dhcp/dhcpv4/nclient4"
 	"github.com/insomniacslk/dhcp/dhcpv6"
 	"github.com/insomniacslk/dhcp/dhcpv6/nclient6"
+	"github.com/insomniacslk/dhcp/rfc1035label"
 )
 
 var mac = net.HardwareAddr{2, 0, 0, 0, 0, 1}
@@ -91,7 +92,13 @@ func (a *api4) Call(ctx context.Context, xid int, verdict func(int, bool) bool, 
 }
 
 func (a *api4) Prepare(ctx context.Context, xid int, verdict func(int, bool) bool, nilMatch bool, onReq func([]byte)) func() (int, bool, error) {
-	req, err := dhcpv4.New(dhcpv4.WithTransactionID(xid4(xid)), dhcpv4.WithHwAddr(mac), dhcpv4.WithMessageType(dhcpv4.MessageTypeDiscover))
+	// the library's own DISCOVER plus what a real client adds: a parameter request list that is not in code
+	// order, a host name, a relay agent option, a route list with host bits
+	req, err := dhcpv4.NewDiscovery(mac, dhcpv4.WithTransactionID(xid4(xid)),
+		dhcpv4.WithRequestedOptions(dhcpv4.OptionNTPServers, dhcpv4.OptionBootfileName, dhcpv4.OptionDomainNameServer),
+		dhcpv4.WithOption(dhcpv4.OptHostName("host7")),
+		dhcpv4.WithOption(dhcpv4.OptRelayAgentInfo(dhcpv4.OptGeneric(dhcpv4.GenericOptionCode(1), []byte("port-7")))),
+		dhcpv4.WithGeneric(dhcpv4.OptionClasslessStaticRoute, []byte{20, 10, 1, 31, 10, 0, 0, 1}))
 	if err != nil {
 		panic(err)
 	}
@@ -197,13 +204,15 @@ func (a *api6) Call(ctx context.Context, xid int, verdict func(int, bool) bool, 
 }
 
 func (a *api6) Prepare(ctx context.Context, xid int, verdict func(int, bool) bool, nilMatch bool, onReq func([]byte)) func() (int, bool, error) {
-	req, err := dhcpv6.NewMessage()
+	// the library's own SOLICIT (client id, option request, elapsed time, IA_NA: not in code order), plus a
+	// second option request option and a name list
+	req, err := dhcpv6.NewSolicit(mac, dhcpv6.WithRequestedOptions(dhcpv6.OptionNTPServer, dhcpv6.OptionBootfileURL, dhcpv6.OptionDNSRecursiveNameServer))
 	if err != nil {
 		panic(err)
 	}
-	req.MessageType = dhcpv6.MessageTypeSolicit
 	req.TransactionID = xid6(xid)
-	req.AddOption(dhcpv6.OptElapsedTime(0))
+	req.AddOption(&dhcpv6.OptFQDN{DomainName: &rfc1035label.Labels{Labels: []string{"host.example.org"}}})
+	req.AddOption(dhcpv6.OptRequestedOption(dhcpv6.OptionSNTPServerList, dhcpv6.OptionDomainSearchList))
 	onReq(req.ToBytes())
 	var m nclient6.Matcher
 	if !nilMatch {
@@ -236,14 +245,25 @@ func (a *api6) Classify(err error) string {
 
 func (a *api6) Datagram(id, xid int, kind string) []byte {
 	if kind == "undec" {
-		if id%2 == 0 {
+		switch id % 4 {
+		case 0:
 			return []byte{7, byte(id)} // truncated header
+		case 1:
+			return append([]byte{12, 0}, make([]byte, 32)...) // a relay message is not a Message
+		case 2: // an option that overruns the datagram, after a well-formed one
+			x := xid6(xid)
+			return []byte{7, x[0], x[1], x[2], 0, 14, 0, 0, 0, 1, 0, 40, 0, 1, 2, 3, 4, 5, 6, 7, 8, 9}
+		default: // a client id that is too short to be a DUID
+			x := xid6(xid)
+			return []byte{7, x[0], x[1], x[2], 0, 1, 0, 1, 9, 0, 8, 0, 2, 0, 0}
 		}
-		return append([]byte{12, 0}, make([]byte, 32)...) // a relay message is not a Message
 	}
 	m, _ := dhcpv6.NewMessage()
 	m.MessageType = dhcpv6.MessageTypeReply
 	m.TransactionID = xid6(xid)
+	// what a server's reply carries; the harness's own marker goes last
+	m.AddOption(dhcpv6.OptClientID(&dhcpv6.DUIDLL{HWType: 1, LinkLayerAddr: mac}))
+	m.AddOption(dhcpv6.OptServerID(&dhcpv6.DUIDLL{HWType: 1, LinkLayerAddr: otherMac}))
 	m.AddOption(&dhcpv6.OptionGeneric{OptionCode: dhcpv6.OptionCode(idOpt6), OptionData: []byte{byte(id >> 8), byte(id)}})
 	return m.ToBytes()
 }
